@@ -45,13 +45,57 @@ def reference(case):
     if m == 'fermi_hubbard':
         return ref.fermi_hubbard(L, *p), 4
     if m in ('linear_c', 'linear_a'):
-        c = [complex(x[0], x[1]) for x in case['coeff']]
-        return ref.linear_fermionic(c, 'c' if m == 'linear_c' else 'a'), 2
+        return ref.linear_fermionic(linear_coefficients(case)[1], 'c' if m == 'linear_c' else 'a'), 2
     raise ValueError(m)
 
 
+def linear_coefficients(case):
+    """(argument handed to linear_fermionic_mpo, the same values as Python complex numbers). The coefficient vector is passed in its
+    legal container and scalar forms: list / tuple / ndarray; float64, complex128, complex64, float32, extended precision, Python int;
+    narrower types are converted first, so that the reference uses exactly the values the library receives."""
+    c = [complex(x[0], x[1]) for x in case['coeff']]
+    cd = case.get('cdtype')
+    isreal = all(z.imag == 0 for z in c)
+    if cd == 'complex64':
+        arr = np.array(c, dtype=np.complex64)
+        return ([z for z in arr] if len(c) % 2 else arr), [complex(z) for z in arr]
+    if cd == 'clongdouble':
+        arr = np.array(c, dtype=np.clongdouble)
+        return arr, c
+    if cd == 'float32' and isreal:
+        arr = np.array([z.real for z in c], dtype=np.float32)
+        return arr, [complex(float(z)) for z in arr]
+    if cd == 'int' and isreal and all(z.real.is_integer() for z in c):
+        return [int(z.real) for z in c], c
+    if isreal and case.get('real_coeff'):
+        c2 = [z.real for z in c]
+    else:
+        c2 = c
+    k = len(c) % 3
+    return (c2 if k == 0 else (tuple(c2) if k == 1 else np.array(c2))), c
+
+
+def _ptyped(p, ptype):
+    """The same parameter values as NumPy scalars (where the value is exactly representable in the narrower type)."""
+    if p is None or not ptype:
+        return p
+    out = []
+    for x in p:
+        if ptype == 'float32' and float(np.float32(x)) == float(x):
+            out.append(np.float32(x))
+        elif ptype == 'float64':
+            out.append(np.float64(x))
+        elif ptype == 'int64' and float(x).is_integer() and abs(x) < 2**31:
+            out.append(np.int64(int(x)))
+        elif ptype == 'longdouble':
+            out.append(np.longdouble(x))
+        else:
+            out.append(x)
+    return out
+
+
 def construct(case):
-    m = case['model']; L = case['L']; p = case.get('params')
+    m = case['model']; L = case['L']; p = _ptyped(case.get('params'), case.get('ptype'))
     if m == 'ising':
         return ptn.ising_mpo(L, *p)
     if m == 'xxz':
@@ -63,12 +107,8 @@ def construct(case):
     if m == 'fermi_hubbard':
         return ptn.fermi_hubbard_mpo(L, *p)
     if m in ('linear_c', 'linear_a'):
-        c = [complex(x[0], x[1]) for x in case['coeff']]
-        if all(z.imag == 0 for z in c) and case.get('real_coeff'):
-            c = [z.real for z in c]
-        k = len(c) % 3
-        carg = c if k == 0 else (tuple(c) if k == 1 else np.array(c))
-        return ptn.linear_fermionic_mpo(carg, case['ftype'])
+        rec_form = linear_coefficients(case)[0]
+        return ptn.linear_fermionic_mpo(rec_form, case['ftype'])
     raise ValueError(m)
 
 
@@ -181,9 +221,11 @@ def gen_model(draw, tier):
                 coeff.append([1.0, 0.0])
         case['coeff'] = coeff
         case['real_coeff'] = draw(st.booleans())
+        case['cdtype'] = draw(st.sampled_from([None, None, 'complex64', 'float32', 'clongdouble', 'int']))
         case['ftype'] = draw(st.sampled_from(['c', 'create', 'creation'] if m == 'linear_c' else ['a', 'annihilate', 'annihilation']))
     else:
         case['params'] = [draw(PARAM) for _ in range(3)]
+        case['ptype'] = draw(st.sampled_from([None, None, None, 'float64', 'float32', 'int64', 'longdouble']))
     return case
 
 
